@@ -178,6 +178,7 @@ def o_c01(tr):
             written[(r.ep, int(r.args[0]))] = int(r.args[1]) + int(r.args[2])
         elif r.what == "reset":
             reset.add((r.ep, int(r.args[0])))
+    send_err = {(r.ep, int(r.args[0])) for r in tr.of("app") if r.what == "err" and r.args and r.args[0].isdigit() and len(r.args) > 1 and r.args[1] in ("send", "close", "finish")}
     read_off = {}
     for r in tr.of("app"):
         if r.what == "read":
@@ -189,14 +190,15 @@ def o_c01(tr):
                 bad.append(("e2e:c01:gap", f"endpoint {r.ep} stream {sid}: read at {off}, expected {exp}"))
             read_off[(r.ep, sid)] = off + ln
             w = written.get((peer(r.ep), sid), 0)
-            if off + ln > w:
+            if off + ln > w and (peer(r.ep), sid) not in send_err:
+                # (a writer whose last call failed may have had part of that call accepted: unknown amount)
                 bad.append(("e2e:c01:more-than-written", f"endpoint {r.ep} stream {sid}: read up to {off + ln} but peer wrote {w}"))
         elif r.what == "eof":
             sid, total = int(r.args[0]), int(r.args[1])
             w = written.get((peer(r.ep), sid), 0)
-            if (peer(r.ep), sid) in reset:
-                bad.append(("e2e:c01:eof-after-reset", f"endpoint {r.ep} stream {sid}: clean EOF although the sender reset the stream"))
-            elif total != w:
+            if (peer(r.ep), sid) in reset and total != w:
+                bad.append(("e2e:c01:eof-after-reset", f"endpoint {r.ep} stream {sid}: clean EOF after {total} bytes although the sender reset the stream after writing {w}"))
+            elif total != w and (peer(r.ep), sid) not in send_err:
                 bad.append(("e2e:c01:eof-incomplete", f"endpoint {r.ep} stream {sid}: clean EOF after {total} bytes, sender wrote {w}"))
     return bad
 
@@ -384,20 +386,22 @@ def o_c12(tr):
             elif f["type"] == "STREAM_DATA_BLOCKED":
                 if (ep, f["id"]) in reset_sent:
                     bad.append(("e2e:c12:blocked-after-reset", f"endpoint {ep} sent STREAM_DATA_BLOCKED on {f['id']} after RESET_STREAM"))
-    # close packets only in response to incoming packets
+    # close packets only in response to incoming packets: every copy after the first CONNECTION_CLOSE must be
+    # preceded by a datagram that reached the endpoint since the previous close packet was sent
+    client_addr = next((w.src for w in tr.of("wire")), None)
     for ep, idx0 in closed_at.items():
-        addr_rx = 0
-        budget = 1
+        arrivals = sorted(w.at for w in tr.of("wire") if w.at is not None and ((w.dst == client_addr) == (ep == "c")))
+        prev_t = None
         for r in tr.recs:
-            if r.idx <= idx0:
+            if r.kind != "txp" or r.ep != ep or r.idx < idx0:
                 continue
-            if r.kind == "ev" and r.ep == ep and r.name in ("transport:packet_received", "transport:packet_dropped", "transport:datagram_dropped"):
-                budget += 1
-            if r.kind == "txp" and r.ep == ep:
-                budget -= 1
-                if budget < -1:
-                    bad.append(("e2e:c12:unsolicited-close", f"endpoint {ep} sent a close packet without a triggering incoming packet"))
+            if not any(f["type"] == "CONNECTION_CLOSE" for f in r.frames):
+                continue
+            if prev_t is not None and r.t > prev_t:
+                if not any(prev_t < a <= r.t for a in arrivals):
+                    bad.append(("e2e:c12:unsolicited-close", f"endpoint {ep} sent a further copy of its close packet at {r.t}us although no datagram reached it since the previous one at {prev_t}us"))
                     break
+            prev_t = r.t
     return bad
 
 
